@@ -75,6 +75,11 @@ func c18Units(tier string) []*Unit {
 		{Name: "v-*-x", Cmds: []C{P()}},
 		{Name: "al", Aliases: []string{"alias1"}, Cmds: []C{P()}},
 	}}, vlab.Options{})
+	// the error path of name resolution, taken by several dependencies at once ("did you mean")
+	add("missing-tasks-resolved-in-parallel", &Prog{Tasks: []*T{
+		{Name: "root", Deps: []Ref{{Task: "nope-1"}, {Task: "nope-2"}, {Task: "bulid"}}},
+		{Name: "build", Cmds: []C{P()}},
+	}}, vlab.Options{})
 	// parallel for-loop over deps with a matrix whose rows are references
 	add("matrix-ref-parallel-deps", &Prog{Tasks: []*T{
 		{Name: "root", Deps: []Ref{
